@@ -145,6 +145,7 @@ class SimFS:
     def put(self, name: str, data: bytes) -> str:
         p = self.path(name)
         self.files[p] = data
+        os.makedirs(os.path.dirname(p), exist_ok=True)
         with _real_open(p, "wb") as f:  # also materialised: code bypassing the seam reads it
             f.write(data)
         # the simulation has no clock: every stored file carries the same modification time, as
